@@ -119,7 +119,14 @@ func (p *WirePipe) Run(cfgs []*wirecorp.Config, workers int, withWire bool) {
 					}
 				}
 				outPath := filepath.Join(it.DirB, "kessoku.go")
-				out, err := load.Run(p.Dir, false, 3*time.Minute, nil, p.CLI, "migrate", "-o", outPath, "./b_"+c.Name)
+				pats := []string{"./b_" + c.Name}
+				if len(c.Patterns) > 0 {
+					pats = nil
+					for _, pt := range c.Patterns {
+						pats = append(pats, "./"+filepath.Join("b_"+c.Name, pt))
+					}
+				}
+				out, err := load.Run(p.Dir, false, 3*time.Minute, nil, p.CLI, append([]string{"migrate", "-o", outPath}, pats...)...)
 				it.MigrateOut, it.MigrateErr = string(out), err
 				data, rerr := os.ReadFile(outPath)
 				it.OutputExist = rerr == nil
